@@ -231,6 +231,7 @@ func runC20(c *Check) {
 	c.Rule("C20.OWN", func() { checkOwnership(c) })
 	c.Rule("C20.GO", func() { checkGoroutines(c) })
 	c.Rule("C20.LOCKSET", func() { checkLockset(c, reach) })
+	extraC20(c)
 }
 
 func ssaExported(fn *ssa.Function) bool {
